@@ -1276,7 +1276,7 @@ def C11(tier, seed, st):
 TOOL_FILES = gens.CANON_FILES   # variable -> file name
 
 
-def run_tool(served, workroot):
+def run_tool(served, workroot, reuse_dir=None):
     """serve `served` (file name -> bytes) on a loopback HTTP server, run the real tool (built from /repo with
     -tags verif) in a fresh scratch directory, return (rc, log, {file name: written bytes or None}, scratch dir)"""
     import http.server, threading, tempfile, os, subprocess
@@ -1297,9 +1297,12 @@ def run_tool(served, workroot):
     srv = http.server.ThreadingHTTPServer(("127.0.0.1", 0), H)
     th = threading.Thread(target=srv.serve_forever, daemon=True)
     th.start()
-    d = tempfile.mkdtemp(prefix="tool-", dir=workroot)
-    os.makedirs(os.path.join(d, "internal", "wordlist"))
-    open(os.path.join(d, "go.mod"), "w").write("module scratch\n\ngo 1.21\n")
+    if reuse_dir:
+        d = reuse_dir     # the output files of an earlier run are still there: regeneration must replace them
+    else:
+        d = tempfile.mkdtemp(prefix="tool-", dir=workroot)
+        os.makedirs(os.path.join(d, "internal", "wordlist"))
+        open(os.path.join(d, "go.mod"), "w").write("module scratch\n\ngo 1.21\n")
     try:
         p = subprocess.run([os.path.join(common.BUILD, "update-wordlist")], cwd=d, timeout=300,
                            env=dict(common.GOENV, BIP39_VERIF_WORDLIST_URL="http://127.0.0.1:%d" % srv.server_address[1]),
@@ -1360,6 +1363,13 @@ def C17(tier, seed, st):
                     body += b"\n"
                 served[n] = body
             rounds.append(("random%d" % r, served, True))
+        # long files (beyond 64 KiB, beyond 1 MiB), then a regeneration with SHORTER files into the same directory
+        big = {}
+        for k, n in enumerate(names):
+            cnt = (9000, 30000, 150000)[k % 3] if (k < 3 or not q) else 50
+            big[n] = b"\n".join(tool_word(rng) for _ in range(cnt)) + b"\n"
+        rounds.append(("long", big, True))
+        rounds.append(("regenerate-shorter", {n: b"\n".join(tool_word(rng) for _ in range(3)) + b"\n" for n in names}, True))
         # outside the domain (quotes, backslashes, markup, CR): recorded against the model, the property does not judge them
         bad = {}
         for n in names:
@@ -1367,8 +1377,9 @@ def C17(tier, seed, st):
             ws[rng.randrange(6)] = rng.choice([b'qu"ote', b"back\\slash", b"a<b", b"a&b", b"it's", b"c+d", b"cr\r", b"nul\x00x"])
             bad[n] = b"\n".join(ws) + b"\n"
         rounds.append(("outside-domain", bad, False))
+        prev_dir = None
         for tag, served, judged in rounds:
-            rc, log, outs, d = run_tool(served, workroot)
+            rc, log, outs, d = run_tool(served, workroot, reuse_dir=prev_dir if tag == "regenerate-shorter" else None)
             if rc != 0:
                 res.violation(stream="T", case=tag, impl="rc=%s %s" % (rc, log[-600:]), model="", spec="the tool completes", why="the generator failed on served word files")
                 continue
@@ -1415,7 +1426,10 @@ def C17(tier, seed, st):
                     if a != b:
                         res.violation(stream="T", case={"round": tag, "file": n}, impl=a[:300], model="", spec=b[:300],
                                       why="run on the canonical upstream list the tool does not reproduce the committed list")
-            shutil.rmtree(d, ignore_errors=True)
+            if tag == "long":
+                prev_dir = d
+            else:
+                shutil.rmtree(d, ignore_errors=True)
         res.sample({"round": "canonical", "files": names, "served": "canon/*.txt"})
         res.sample({"round": "random0", "file": names[3], "served_hex": hx(rounds[1][1][names[3]])[:300]})
     finally:
